@@ -31,13 +31,14 @@ MANIFEST = {
                           "TLC against DHTTrace.tla",
                 text="TLC exhaustively checks AtMostOnce, Terminates (step bound + no deadlock), ClosestTruthful, "
                      "ValueFromContacted, AcceptedDistinct, ErrIffBelowMin and NoPanic on DHT.tla for find-node, join, get and put "
-                     "over a 4-node (quick) / 5-node (thorough) universe with every initial list of <= 3 peers (duplicates "
+                     "over a 4-node (quick) / 5-node (thorough) universe, with the identity distance (32-byte key) and, for get/put, a "
+                     "distance function in which distinct peers tie (key shorter than a peer id), with every initial list of <= 3 peers (duplicates "
                      "included) and every answer (any peer list incl. cyclic, self-referential, duplicated, fabricated; fail / "
                      "accept flags; value classes nil / well-formed / malformed / empty-but-non-nil against the caller's Validate chosen by the case) of every contacted node, then evaluates the same operators on what the real "
                      "DHTFindNode/DHTJoin/DHTGet/DHTPut did on TLC-generated cases (exhaustive 3-node family, random 6-10 node "
                      "topologies, networks of real DHTNode handlers with dead and adversarial members). A VIOLATION is printed "
                      "only when an operator is false on real observations.",
-                note="Bounded: universes of 3-10 abstract nodes (honest networks of 3-24 nodes quick, up to 600 thorough); the "
+                note="Bounded: universes of 3-10 abstract nodes, key lengths {1, 2, 31, 32} bytes in the replayed cases (the queue order under ties is modelled as Go's stable insertion sort, exact up to 12 queued peers) (honest networks of 3-24 nodes quick, up to 600 thorough); the "
                      "adversary is stateless per case (what a node answers depends on its id only) in the replayed cases, stateful "
                      "in the model. 'Closest' is accepted if it is the nearest among asked, answering or (put) accepting nodes. "
                      "A get value counts as validated only if the case's Validate accepts the exact returned bytes (evaluated by the harness). Responder caps (HandleFindNode limit, closerNodes) and contact-set differences are compared as drift only. Trusts TLC, the Json/IOUtils "
